@@ -285,6 +285,7 @@ func (x *Exec) havocLoopClass(st, old *State, class string, allocBefore *T) {
 	oldArr := x.heapArr(st, class, s)
 	entryArr := x.heapArr(x.entry, class, s)
 	newArr := term.Fresh("L."+class, oldArr.Sort)
+	x.rangeAxiom(class, newArr)
 	r := term.Bound("r", term.Int)
 	// objects that existed at function entry and are not in the modifies clause keep their entry value
 	conds := []*T{term.Lt(r, x.entryAlloc)}
